@@ -737,3 +737,118 @@ def add_queries(P, ch, feat, n=1):
         P.rules.append(Rule(Atom(q.name, list(free)), [Atom(rel.name, args)]))
         added.append(q.name)
     return added
+
+
+# ------------------------------------------------------------------------------------------------
+# recursion-heavy workloads (used where the property is about the fixpoint loop itself: C09, C23, C03, C22 ...)
+
+def gen_recursive(ch, max_nodes=9, max_edges=18, npatterns=(1, 3), allow_neg=True):
+    """random graph EDB + 1-3 recursive patterns (linear / non-linear transitive closure, bounded counters, mutual
+    recursion, same-generation, reachability with a negated lower-stratum filter), each with small random variations.
+    All strata need several iterations by construction."""
+    P = Program()
+    N = ch.int(3, max_nodes)
+    ne = ch.int(N - 1, max_edges)
+    e = Rel("e0", [NUMBER, NUMBER], "edb")
+    seen = set()
+    # a path backbone so that chains are long, plus random extra edges (cycles allowed)
+    perm = ch.shuffle(list(range(N)))
+    blen = ch.int(2, N)
+    for i in range(blen - 1):
+        seen.add((perm[i], perm[i + 1]))
+    for _ in range(ne):
+        seen.add((ch.int(0, N - 1), ch.int(0, N - 1)))
+    e.facts = sorted(seen)
+    e.from_file = ch.bool(0.3)
+    e.output = False
+    P.add_rel(e)
+    s = Rel("e1", [NUMBER], "edb")
+    s.facts = sorted({(ch.int(0, N - 1),) for _ in range(ch.int(1, 3))})
+    s.output = False
+    P.add_rel(s)
+    blocked = Rel("e2", [NUMBER], "edb")
+    blocked.facts = sorted({(ch.int(0, N - 1),) for _ in range(ch.int(0, 2))})
+    blocked.output = False
+    P.add_rel(blocked)
+    X, Y, Z, W, A, B = (Var(n, NUMBER) for n in ("x", "y", "z", "w", "a", "b"))
+    n = ch.int(npatterns[0], npatterns[1])
+    idx = 0
+
+    def new_rel(ar, group, rec=True):
+        nonlocal idx
+        r = Rel("r%d" % idx, [NUMBER] * ar, "idb")
+        idx += 1
+        r.group = group
+        r.recursive = rec
+        P.add_rel(r)
+        return r
+
+    for _ in range(n):
+        g = len(P.groups)
+        binaries = [P.rels[x] for x in P.order if len(P.rels[x].types) == 2 and P.rels[x].group != g]
+        base = ch.choice(binaries)   # an earlier binary relation (edge relation or an earlier closure)
+        kind = ch.weighted([(3, "tc"), (2, "tc2"), (2, "counter"), (2, "mutual"), (2, "sg"), (2, "reach")])
+        if kind in ("tc", "tc2"):
+            r = new_rel(2, g)
+            P.groups.append([r.name])
+            P.rules.append(Rule(Atom(r.name, [X, Y]), [Atom(base.name, [X, Y])]))
+            if kind == "tc":
+                body = [Atom(r.name, [X, Y]), Atom(base.name, [Y, Z])]
+                if ch.bool(0.5):
+                    body.reverse()
+            else:
+                body = [Atom(r.name, [X, Y]), Atom(r.name, [Y, Z])]
+                if ch.bool(0.3):
+                    body.append(Atom(base.name, [X, W]))
+            if allow_neg and ch.bool(0.3):
+                body.append(Neg(Atom("e2", [Y])))
+            if ch.bool(0.25):
+                body.append(Cmp("!=", X, Z, NUMBER))
+            rule = Rule(Atom(r.name, [X, Z]), body)
+            rule.tags.add("rec")
+            P.rules.append(rule)
+            if kind == "tc" and ch.bool(0.3):
+                # a second recursive rule (left-linear variant)
+                rule2 = Rule(Atom(r.name, [X, Z]), [Atom(base.name, [X, Y]), Atom(r.name, [Y, Z])])
+                rule2.tags.add("rec")
+                P.rules.append(rule2)
+        elif kind == "counter":
+            r = new_rel(2, g)
+            P.groups.append([r.name])
+            cap = ch.int(3, 9)
+            step = ch.int(1, 2)
+            P.rules.append(Rule(Atom(r.name, [X, Const(0, NUMBER)]), [Atom("e1", [X])]))
+            rule = Rule(Atom(r.name, [X, Fn("+", [Y, Const(step, NUMBER)], NUMBER)]),
+                        [Atom(r.name, [X, Y]), Cmp("<", Y, Const(cap, NUMBER), NUMBER)])
+            rule.tags.add("rec")
+            P.rules.append(rule)
+        elif kind == "mutual":
+            ev = new_rel(1, g)
+            od = new_rel(1, g)
+            P.groups.append([ev.name, od.name])
+            P.rules.append(Rule(Atom(ev.name, [X]), [Atom("e1", [X])]))
+            r1 = Rule(Atom(od.name, [Y]), [Atom(ev.name, [X]), Atom(base.name, [X, Y])])
+            r2 = Rule(Atom(ev.name, [Y]), [Atom(od.name, [X]), Atom(base.name, [X, Y])])
+            for rr in (r1, r2):
+                rr.tags.add("rec")
+                P.rules.append(rr)
+        elif kind == "sg":
+            r = new_rel(2, g)
+            P.groups.append([r.name])
+            P.rules.append(Rule(Atom(r.name, [X, Y]), [Atom(base.name, [Z, X]), Atom(base.name, [Z, Y])]))
+            rule = Rule(Atom(r.name, [X, Y]), [Atom(base.name, [A, X]), Atom(r.name, [A, B]), Atom(base.name, [B, Y])])
+            rule.tags.add("rec")
+            P.rules.append(rule)
+        else:  # reach
+            r = new_rel(1, g)
+            P.groups.append([r.name])
+            P.rules.append(Rule(Atom(r.name, [X]), [Atom("e1", [X])]))
+            body = [Atom(r.name, [X]), Atom(base.name, [X, Y])]
+            if allow_neg and ch.bool(0.5):
+                body.append(Neg(Atom("e2", [Y])))
+            rule = Rule(Atom(r.name, [Y]), body)
+            rule.tags.add("rec")
+            P.rules.append(rule)
+    for r in P.rules:
+        r.order = list(range(len(r.body)))
+    return P
